@@ -174,7 +174,11 @@ ScaleDownTie(p, cf) == ((p * 100) % (100 + cf)) = 0
 DocSpanBook(p, k) == p
 ImplSpanBook(p, k) == k
 DocVariant == [span |-> FALSE, first |-> FALSE]
-ImplVariant == [span |-> TRUE, first |-> TRUE]
+\* Both deviations were found by this specification and repaired in skoolkit (fix commits e0b2cb9 and ed48092), so the
+\* implementation is now expected to follow the documented variant; v.span / v.first stay as named operators so that a
+\* regression is reported under its name (adjust:ImplSpanBook / adjust:ImplFirstDelayExempt).
+ImplVariant == DocVariant
+OldImplVariant == [span |-> TRUE, first |-> TRUE]
 
 \* one delay: s = [pos, D, el, j, segs, tie, span, fcross, one, first]
 \*   one = this is the first delay of the list, first = ... and it is still at its initial position
